@@ -108,6 +108,10 @@ Matrix3 CalcAverageRotation(const std::vector<Matrix3>& rots) {
 	for (const Matrix3& r : rots)
 		sum2 += RotMatToVec(baseinv * r);
 
+	sum2.x /= n;
+	sum2.y /= n;
+	sum2.z /= n;
+
 	// The result is the new average offset from the base.
 	return base * RotVecToMat(sum2);
 }
